@@ -8,7 +8,7 @@ RULE = ("symbolic execution (z3) of the MIR of RuleSet::evaluate_value (the coro
 
 
 def check(run, only=None):
-    e3.run_parts(run, ["ruleset"], only=only, pendings=1 if run.tier == "quick" else 2)
+    e3.run_parts(run, ["ruleset", "calling_rules"], only=only, pendings=1 if run.tier == "quick" else 2)
     run.outside_claim += ["RuleSet::evaluate(&impl Serialize): the serialize-then-delegate line (generic over the input type) is not executed; the "
                           "serializer itself is C13", "more rules than the bound k", "the expressions' own evaluation (C02-C05, one level at a time)"]
     run.extra["bounds"] = {"rules": "0..3 (quick) / 0..4 (thorough)", "pending_polls_per_await": 1 if run.tier == "quick" else 2}
